@@ -137,6 +137,35 @@ fn observe_parse(relocs: &BaseRelocs<'_>, base: usize) -> (String, String, Strin
 	(join(&blocks, ";"), join(&iter, ","), join(&fold, ","))
 }
 
+fn through_image(data: &[u8], b: &str, i: &str, f: &str) {
+	use pvh::pe::*;
+	for (pe64, file) in [(false, true), (true, true), (false, false), (true, false)] {
+		let va = 0x2000u32;
+		let sz = ((data.len() as u32 + 0x1FF) & !0x1FF).max(0x200);
+		let mut dirs = vec![(0u32, 0u32); 16];
+		dirs[5] = (va, data.len() as u32);
+		let mut spec = ImgSpec { pe64, e_lfanew: 0x80, soh: 0x400, soi: va + sz, image_base: if pe64 { 0x1_4000_0000 } else { 0x40_0000 }, nrva: 16, dirs, opt_size: 0, nsec_field: 1, secs: Vec::new(), checksum: 0, magic: if pe64 { 0x20b } else { 0x10b } };
+		spec.opt_size = spec.std_opt_size();
+		let mut s = Sec { name: [0; 8], va, vs: sz, prd: 0x400, srd: sz, chars: 0x4200_0040 };
+		s.name[..6].copy_from_slice(b".reloc");
+		spec.secs.push(s);
+		let (len, at) = if file { (0x400 + sz as usize, 0x400usize) } else { ((va + sz) as usize, va as usize) };
+		let img = Image { len, fill: 0, hdr: spec.header_bytes(), pokes: vec![(at, data.to_vec())] };
+		let bytes = img.bytes();
+		let buf = Aligned::new(&bytes, 0);
+		let bb = buf.bytes();
+		macro_rules! go { ($m:ident, $t:ident) => {{
+			use pelite::$m::{Pe, $t};
+			let pe = $t::from_bytes(bb).expect("harness: the relocation test image is not accepted");
+			let r = pe.base_relocs().expect("harness: Pe::base_relocs fails on a directory BaseRelocs::parse accepts");
+			assert!(r.image() == data, "harness: Pe::base_relocs does not hand out the Size bytes at the directory RVA ({} bytes of {})", r.image().len(), data.len());
+			let (b2, i2, f2) = observe_parse(&r, r.image().as_ptr() as usize);
+			assert!(b2 == b && i2 == i && f2 == f, "harness: Pe::base_relocs decodes differently from BaseRelocs::parse on the same bytes");
+		}}}
+		match (pe64, file) { (false, true) => go!(pe32, PeFile), (true, true) => go!(pe64, PeFile), (false, false) => go!(pe32, PeView), _ => go!(pe64, PeView) }
+	}
+}
+
 fn run(case: &str) -> String {
 	let kind = case.split(' ').next().unwrap();
 	match kind {
@@ -148,6 +177,9 @@ fn run(case: &str) -> String {
 			match BaseRelocs::parse(bytes) {
 				Ok(relocs) => {
 					let (b, i, f) = observe_parse(&relocs, bytes.as_ptr() as usize);
+					// the same directory reached through an image (Pe::base_relocs, file and mapped view, PE32 and PE32+):
+					// exactly the Size bytes at the directory RVA, decoded to the same blocks and pairs
+					if !data.is_empty() { through_image(&data, &b, &i, &f); }
 					format!("blocks={} iter={} fold={}", b, i, f)
 				},
 				Err(e) => format!("!err {:?}", e),
